@@ -1,7 +1,9 @@
 // sqlsites: static census of every place under <repo>/reader that builds SQL text from something
 // that is not a constant, with the provenance class of every formatted argument (property C10).
-// Purely syntactic (go/parser + go/ast, no type checker): everything that the rules below do not
-// recognise is UNCLASSIFIED, which fails the Coq obligation all_sql_sites_classified.
+// Syntactic provenance rules (go/parser + go/ast); the numeric rules (%d %f %e %g, numeric Sprintf,
+// arithmetic) additionally require go/types to prove the argument a basic integer / float (types.go).
+// Everything that the rules below do not recognise is UNCLASSIFIED, which fails the Coq obligation
+// all_sql_sites_classified.
 //
 // usage: sqlsites <repo root>   -> JSON on stdout
 package main
@@ -25,7 +27,7 @@ const (
 	KConst   = "KConst"   // compile-time constant text
 	KChoice  = "KChoice"  // one of several constants
 	KConfig  = "KConfig"  // configuration (table / database names)
-	KInt     = "KInt"     // %d of anything, strconv of an integer
+	KInt     = "KInt"     // %d of an expression whose static type is a basic integer (go/types), strconv of an integer
 	KFloat   = "KFloat"   // %f
 	KDate    = "KDate"    // time.Format("2006-01-02")
 	KIdent   = "KIdent"   // identifier accepted by a query lexer rule [a-zA-Z_][a-zA-Z0-9_]*
@@ -491,7 +493,16 @@ func (c *fnCtx) classify(e ast.Expr, v *visit) string {
 			c.addConcatSite(x)
 			return KBuilt
 		}
-		return KInt
+		// arithmetic / comparison: numeric or boolean by Go's typing, confirmed with go/types
+		switch kind, _ := c.pkg.numKind(x); kind {
+		case "int":
+			return KInt
+		case "float":
+			return KFloat
+		case "bool":
+			return KChoice
+		}
+		return KUnclass
 	case *ast.CallExpr:
 		return c.classifyCall(x, v)
 	case *ast.CompositeLit:
@@ -672,7 +683,7 @@ func (c *fnCtx) classifyCall(x *ast.CallExpr, v *visit) string {
 	switch {
 	case isPkgCall(x, "fmt", "Sprintf"):
 		c.addSprintfSite(x)
-		if numericFormat(x) {
+		if c.numericFormat(x) {
 			// only %d / %f / %e / %g verbs between bytes of model/SqlSites.v numeric_alphabet: the text is numeric
 			return KFloat
 		}
@@ -868,10 +879,10 @@ func (c *fnCtx) addSprintfSite(x *ast.CallExpr) {
 			continue
 		}
 		switch verb {
-		case 'd':
-			st.Pieces = append(st.Pieces, Piece{T: "arg", K: KInt, What: exprStr(args[idx])})
-		case 'f', 'g', 'e':
-			st.Pieces = append(st.Pieces, Piece{T: "arg", K: KFloat, What: exprStr(args[idx])})
+		case 'd', 'f', 'g', 'e':
+			// numeric only if the static type of the argument is (types.go); otherwise fmt would print
+			// %!d(string=...) with the argument's bytes
+			st.Pieces = append(st.Pieces, c.verbArg(verb, args[idx]))
 		case 's', 'v':
 			st.Pieces = append(st.Pieces, c.argPiece(args[idx]))
 		default:
@@ -883,7 +894,7 @@ func (c *fnCtx) addSprintfSite(x *ast.CallExpr) {
 }
 
 // numericFormat: a Sprintf whose constant format has only numeric verbs and bytes of numeric_alphabet around them
-func numericFormat(x *ast.CallExpr) bool {
+func (c *fnCtx) numericFormat(x *ast.CallExpr) bool {
 	format, ok := strLit(x.Args[0])
 	if !ok {
 		return false
@@ -903,6 +914,14 @@ func numericFormat(x *ast.CallExpr) bool {
 			i++
 		}
 		if i >= len(format) || strings.IndexByte("dfeg", format[i]) < 0 {
+			return false
+		}
+		if verbs+1 >= len(x.Args) {
+			return false
+		}
+		// the argument must be statically numeric of the verb's kind
+		kind, _ := c.pkg.numKind(x.Args[verbs+1])
+		if !(format[i] == 'd' && kind == "int") && !(format[i] != 'd' && kind == "float") {
 			return false
 		}
 		verbs++
@@ -1265,5 +1284,5 @@ func main() {
 	})
 	enc := json.NewEncoder(os.Stdout)
 	enc.SetIndent("", " ")
-	enc.Encode(map[string]any{"sites": sites, "excluded": excludedFuncs})
+	enc.Encode(map[string]any{"sites": sites, "excluded": excludedFuncs, "types": typeStats})
 }
